@@ -22,7 +22,13 @@ type World struct {
 	MemberProxy, OutsiderProxy *neoproxy.Proxy
 	Member, Outsider           *irsetup.Env
 
-	mk func(key *keys.PrivateKey) (*neoproxy.Proxy, *irsetup.Env, error)
+	mk     func(key *keys.PrivateKey) (*neoproxy.Proxy, *irsetup.Env, error)
+	mkOpts func(key *keys.PrivateKey, tune func(*irsetup.Options)) (*neoproxy.Proxy, *irsetup.Env, error)
+}
+
+// NewEnvWith is NewEnv with adjusted options (URLs, key, contracts are preset).
+func (w *World) NewEnvWith(key *keys.PrivateKey, tune func(*irsetup.Options)) (*neoproxy.Proxy, *irsetup.Env, error) {
+	return w.mkOpts(key, tune)
 }
 
 // NewEnv attaches one more set of processors (own recording proxy) to the chain.
@@ -56,15 +62,22 @@ func NewWorld(allowEC bool, prepare func(w *World) error) (*World, error) {
 	}
 	w.mk = func(key *keys.PrivateKey) (*neoproxy.Proxy, *irsetup.Env, error) { return nil, nil, nil }
 	mk := func(key *keys.PrivateKey) (*neoproxy.Proxy, *irsetup.Env, error) {
+		return w.NewEnvWith(key, nil)
+	}
+	w.mkOpts = func(key *keys.PrivateKey, tune func(*irsetup.Options)) (*neoproxy.Proxy, *irsetup.Env, error) {
 		p, err := neoproxy.New(w.Chain.RPC)
 		if err != nil {
 			return nil, nil, err
 		}
 		p.SwallowWrites(true)
-		e, err := irsetup.NewEnv(irsetup.Options{
+		o := irsetup.Options{
 			FSURL: p.URL, MainURL: p.URL, Key: key, AlphabetKeys: keys.PublicKeys{CommitteeKey().PublicKey()},
 			Contracts: w.Contracts, Magic: w.Chain.Magic, AllowEC: allowEC,
-		})
+		}
+		if tune != nil {
+			tune(&o)
+		}
+		e, err := irsetup.NewEnv(o)
 		if err != nil {
 			p.Close()
 			return nil, nil, err
